@@ -298,6 +298,9 @@ func GenerateScript(seed uint64, prop, tier string, env *Env) *Script {
 	if rng.Chance(0.5) {
 		s.Config.TZ = []string{"Asia/Seoul", "America/St_Johns", "Pacific/Kiritimati", "America/Los_Angeles"}[rng.Intn(4)]
 	}
+	if rng.Chance(0.4) {
+		s.Config.EnvPerNode = true
+	}
 	if rng.Chance(0.3) {
 		// chains that do not start at height 1: heights around encoding and arithmetic boundaries
 		s.Config.InitialHeight = []int64{2, 100, 255, 65535, 1<<31 - 3, 1<<32 - 2, 1 << 53}[rng.Intn(7)]
